@@ -117,7 +117,9 @@ func c14equivalent(g *docgen, c c14case) []c14case {
 		b.doc.set("plugins", sx.Pick(g.rng, []*dv{dList(), dNull()}))
 	}
 	if !b.doc.has("matrix") {
-		b.doc.set("matrix", sx.Pick(g.rng, []*dv{dMap(), dNull()}))
+		// every spelling of "no matrix": absent, null, {}, and mappings holding only empty containers
+		b.doc.set("matrix", sx.Pick(g.rng, []*dv{dMap(), dNull(), dMap(dkv{"setup", dMap()}), dMap(dkv{"adjustments", dList()}),
+			dMap(dkv{"setup", dMap()}, dkv{"adjustments", dList()}), dMap(dkv{"setup", dNull()})}))
 	}
 	out = append(out, b)
 	d := c.clone()
@@ -302,6 +304,48 @@ func c14different(g *docgen, c c14case) []c14case {
 			return false
 		}
 		su.set("newdim", dList(dStr("x")))
+		return true
+	})
+	// adjustments are part of the signed matrix whether or not there is a setup: one appended, the first one's
+	// skip flipped, and a matrix that has adjustments removed altogether
+	adjOf := func(n *c14case) *dv {
+		m := n.doc.get("matrix")
+		if m == nil || m.kind != 'm' {
+			return nil
+		}
+		ad := m.get("adjustments")
+		if ad == nil || ad.kind != 'l' {
+			return nil
+		}
+		return ad
+	}
+	add(func(n *c14case) bool {
+		ad := adjOf(n)
+		if ad == nil {
+			return false
+		}
+		ad.l = append(ad.l, dMap(dkv{"with", dMap(dkv{"added_dim", dStr("added")})}, dkv{"skip", dBool(true)}))
+		return true
+	})
+	add(func(n *c14case) bool {
+		ad := adjOf(n)
+		if ad == nil || len(ad.l) == 0 || ad.l[0].kind != 'm' {
+			return false
+		}
+		cur := ad.l[0].get("skip")
+		if cur != nil && cur.kind == 'b' && cur.b {
+			ad.l[0].set("skip", dStr("a reason instead of true"))
+		} else {
+			ad.l[0].set("skip", dBool(true))
+		}
+		return true
+	})
+	add(func(n *c14case) bool {
+		ad := adjOf(n)
+		if ad == nil || len(ad.l) == 0 {
+			return false
+		}
+		n.doc.del("matrix")
 		return true
 	})
 	// an unknown key of the matrix itself added, changed or removed (the matrix is signed with its extra keys)
